@@ -119,8 +119,12 @@ def analyse(plan: dict[str, Any], result: dict[str, Any]) -> Report:
         if st == 'rank_error':
             for r, e in inc['rank_errors'].items():
                 props = ['C03']
-                if e.get('phase') == 'restore':
+                if e.get('phase') == 'restore' or k > 0:
+                    # a valid state must load, and the resumed job must run
                     props.append('C09')
+                if e.get('phase') == 'train':
+                    # a step that raises produces no gradients at all
+                    props += ['C05', 'C10']
                 if e.get('phase') == 'construct' and \
                         plan['hps']['kl_clip'].get('c', 0) is None:
                     props = ['C07']
